@@ -1,11 +1,11 @@
-from _bs_common import EXT, NOSIG
+from _bs_common import EXT, HASH_STUBS, NOSIG
 EXT = dict(EXT, stub_virtual=EXT['stub_virtual'] + NOSIG)
 PROPERTY = dict(
     level='other',
     level_text='Reduced scope. End-to-end histories over a real file system and real commands cannot be encoded; what is decided, by bounded model checking of the real ExternalCommand code with the file system an arbitrary stub, is that the validity predicate and the output mapping are sound: (V2) a stored command result is accepted exactly when the command is not always-out-of-date, it was successful, and EVERY non-virtual output (all positions) still has the recorded file information (existence only for mutated outputs) - so a tampered, deleted or newly appeared output at any position invalidates it; (V3) each output node receives the information recorded at its own index, a missing one is reported missing, virtual ones carry none.  Together with C01 (engine) and C09 (signatures) these give the property for file systems that behave as stat documents; that composition is an argument, not a run.',
     level_note='Trusted: clang-14 -O1 IR of ExternalCommand.cpp, ir2c (validated each run), CBMC+SAT, FileInfo equality as proved in C13. Not decided: FileInputNodeTask/ProducedNodeTask glue in BuildSystem.cpp, build-description loading, mkdir/symlink tools, parallel execution.',
-    bounds='commands with 1..3 outputs, every combination of virtual/mutated flags, all FileInfo fields of stored and current state symbolic, all stored value kinds',
-    outside='more than 3 outputs; node tasks and rule lookup in BuildSystem.cpp; the YAML loader; real file systems',
+    bounds='V4 (BuildNode::getSignature over the ideal hash of C09): plain nodes with 0..2 producers, names 0..2 bytes over {a,b}; commands with 1..3 outputs, every combination of virtual/mutated flags, all FileInfo fields of stored and current state symbolic, all stored value kinds',
+    outside='more than 3 outputs; more than 2 producers of a node; node tasks and rule lookup in BuildSystem.cpp; the YAML loader; real file systems',
     stubs='BuildSystem::getFileSystem -> arbitrary FileSystem',
     assumptions=[],
     explanation='The deciding step is the solver verdict on ExternalCommand::isResultValid and getResultForOutput for all states within the bound; the end-to-end sentence of the property additionally rests on C01, C09, C13 and on the stat contract of the operating system, which are stated, not checked here.',
@@ -15,4 +15,8 @@ OBLIGATIONS = [
          params_thorough=[{'VF_CASE': 0, 'VF_K': k} for k in (1, 2, 3)]),
     dict(EXT, name='V3.resultForOutput', noinline=['ExternalCommand18getResultForOutput'], expect_functions=['ExternalCommand18getResultForOutput'], params_quick=[{'VF_CASE': 1, 'VF_K': k} for k in (1, 2)],
          params_thorough=[{'VF_CASE': 1, 'VF_K': k} for k in (1, 2, 3)]),
+    # the signature of a produced node's rule (BuildNode::getSignature, over the ideal hash of C09): a description edit that rewires a node to other producers is seen
+    dict(EXT, name='V4.node-signature', stubs=EXT['stubs'] + HASH_STUBS, noinline=['BuildNode12getSignature'], expect_functions=['BuildNode12getSignature'],
+         params_quick=[dict(VF_CASE=6, VF_AI=a, VF_BI=b) for (a, b) in ((1, 1), (0, 1), (1, 2))], params_thorough=[dict(VF_CASE=6, VF_AI=a, VF_BI=b) for a in range(3) for b in range(a, 3)],
+         unwind=8, unwind_loops=[('intern', 20)], timeout=400),
 ]
